@@ -603,8 +603,40 @@ def refusal_cases(draw, tier):
 
 
 @st.composite
+def big_merge_cases(draw, tier):
+    """a refused bulk copy between two LONG child lists (4..129 x 4..129 children, the one conflicting child at a
+    generated place): whatever was copied before the conflict is noticed must not stay behind"""
+    sizes = [4, 11, 33, 41, 65, 129]
+    w1 = draw(st.sampled_from(sizes))
+    w2 = draw(st.sampled_from(sizes))
+    j = draw(st.sampled_from([0, 1, w1 // 2, w1 - 2, w1 - 1]))
+    k = draw(st.sampled_from([0, 1, w2 // 2, w2 - 1]))
+    typed = draw(st.sampled_from([False, False, True]))
+    conflict = draw(st.sampled_from([True, True, True, False]))
+    src = [[f"p{i}", [["x", []]] if i in (0, j) else []] for i in range(w1)]
+    tgt = [[(f"p{j}" if (i == k and conflict) else f"q{i}"), []] for i in range(w2)]
+    spec = [["P", src], ["Q", tgt]]
+    ref_q = 1 + gen.spec_nodes(src)
+    deep = draw(st.sampled_from([None, True, False]))
+    op = draw(st.sampled_from([
+        ["copy_to", 0, ref_q, False, None, bool(deep)],
+        ["add_tree", ref_q, draw(st.sampled_from([None, True, ["i", 0], ["c", k]])), deep],
+        ["shortcut_tree", draw(st.sampled_from(["append_child", "prepend_child"])), ref_q, deep],
+        ["shortcut_tree", draw(st.sampled_from(["prepend_sibling", "append_sibling"])), ref_q + 1 + draw(st.sampled_from([0, w2 - 1])), deep],
+    ]))
+    return {"spec": spec, "spec2": [list(n) for n in src], "typed": typed, "ops": [op, ["add", ref_q, "zz", None, {}]]}
+
+
+@st.composite
+def big_refusal_cases(draw, tier):
+    typed = draw(st.sampled_from([False, False, True]))
+    kinds = ["add", "add_node", "add_node", "copy_to", "move", "move", "set_data", "rename", "add_tree", "prepend_sibling", "add_node_ids", "shortcut_tree", "sort", "remove"]
+    return draw(gen_ops.histories(typed=typed, max_ops=4, min_ops=2, kinds=kinds, invalid_bias=True, big=1))
+
+
+@st.composite
 def fault_cases(draw, tier):
-    spec = draw(gen.forest_specs(max_nodes=10, max_depth=4, max_width=4, min_nodes=2, alphabet=["a", "b", "c", "d", "e"]))
+    spec = draw(gen.forest_specs(max_nodes=10, max_depth=4, max_width=4, min_nodes=2, alphabet=["a", "b", "c", "d", "e"], big=(20, 41)))
     accept = draw(st.lists(st.sampled_from(["a", "b", "c", "d", "e"]), max_size=4, unique=True))
     case = {"spec": spec, "accept": accept}
     if draw(st.sampled_from([0, 0, 1])):
@@ -633,4 +665,6 @@ PARTS = [
     Part("refusals", run_refusals, strategy=refusal_cases, n={"quick": 600, "thorough": 100000}),
     Part("collision-routes", run_collision_routes, strategy=route_cases, n={"quick": 300, "thorough": 60000}),
     Part("faults", run_faults, strategy=fault_cases, n={"quick": 80, "thorough": 10000}),
+    Part("big-merges", run_refusals, strategy=big_merge_cases, n={"quick": 150, "thorough": 5000}),
+    Part("big-trees", run_refusals, strategy=big_refusal_cases, n={"quick": 150, "thorough": 10000}),
 ]
